@@ -180,7 +180,22 @@ fn channel_id_case(ctx: &mut Ctx, idx: usize, w: &World) {
     let ma = rb(ctx, la);
     let ca = rb(ctx, lb);
     let pk = w.customer.merchant_public_key();
-    let pkb = pk.to_bytes();
+    // the key's bytes as they enter the channel id, assembled independently of the code under test:
+    // g1 | Y_1..Y_5 | g~ | X~ | Y~_1..Y~_5 (compressed, no length prefixes)
+    let pkb = {
+        let k = &w.kpd.pk;
+        let mut v = wire::enc_g1(&ctx.book, &k.g1);
+        for y in &k.y1s { v.extend(wire::enc_g1(&ctx.book, y)); }
+        v.extend(wire::enc_g2(&ctx.book, &k.g2));
+        v.extend(wire::enc_g2(&ctx.book, &k.x2));
+        for y in &k.y2s { v.extend(wire::enc_g2(&ctx.book, y)); }
+        v
+    };
+    ctx.evals += 1;
+    if pk.to_bytes() != pkb {
+        ctx.count("public-key-to-bytes:MISMATCH");
+        ctx.disagreements.push(json!({"kind": "model-vs-implementation", "case": ctx.case_id, "what": "PublicKey::to_bytes is not g1 | Y_1..Y_N | g~ | X~ | Y~_1..Y~_N"}));
+    }
     let id = |mr: &[u8], cr: &[u8], ma: &[u8], ca: &[u8]| -> [u8; 32] {
         ChannelId::new(wire::de::<MerchantRandomness>(mr).unwrap(), wire::de::<CustomerRandomness>(cr).unwrap(), pk, ma, ca).to_bytes()
     };
@@ -230,6 +245,19 @@ fn key_input_case(ctx: &mut Ctx, idx: usize, w: &World, w2: &World) {
     ctx.evals += 1;
     if a == b {
         ctx.violation("changing the merchant public key leaves the channel id unchanged", json!({"class": "channel-id-input-not-bound", "input": "public-key"}));
+    }
+    // keys differing from the original in a single element (each of the 13 in turn)
+    let book = ctx.book.clone();
+    for e in 0..13 {
+        let mut k = w.kpd.pk.clone();
+        let what = match e { 0 => { k.g1 += Scalar::one(); "g1".to_string() } 1..=5 => { k.y1s[e - 1] += Scalar::one(); format!("Y_{}", e) } 6 => { k.g2 += Scalar::one(); "g~".into() } 7 => { k.x2 += Scalar::one(); "X~".into() } _ => { k.y2s[e - 8] += Scalar::one(); format!("Y~_{}", e - 7) } };
+        let pk2 = match wire::pubkey::<5>(&book, &k) { Ok(p) => p, Err(_) => continue };
+        let c = ChannelId::new(wire::de(&mr).unwrap(), wire::de(&cr).unwrap(), &pk2, b"m", b"c").to_bytes();
+        ctx.evals += 1;
+        ctx.count(&format!("channel-id:key-element-replaced:{}", if c != a { "changed" } else { "UNCHANGED" }));
+        if c == a {
+            ctx.violation(&format!("replacing the element {} of the merchant public key leaves the channel id unchanged", what), json!({"class": "channel-id-key-element-not-bound", "element": what}));
+        }
     }
 }
 
